@@ -12,7 +12,7 @@ CONSTANTS
   FixedD3 = FALSE
   FixedG1 = FALSE
   FixedG2 = FALSE
-  NGCORP = 8
+  NGCORP = 6
 INIT GInit
 NEXT GNext
 INVARIANT ReqDisjoint
